@@ -51,6 +51,8 @@ type Machine struct {
 	FuncsExecuted map[string]int
 	Instrs        int64
 
+	fieldsRead map[string]bool
+
 	MapOrderChoice bool // C12: range over a map is a schedule choice
 	MapOrderMaxLen int
 }
@@ -305,4 +307,73 @@ func (i *interpreter) panicText(v value) string {
 // isEmittedPkg: import paths of materialised (stage-2) packages.
 func isEmittedPkg(p string) bool {
 	return strings.HasPrefix(p, "zzgen/") || strings.HasPrefix(p, "zzreplay/")
+}
+
+// schemaFieldsRead returns the names of fields of pkg/schemas struct types that code in
+// pkg/generator, pkg/codegen, internal/x/text or main reads or writes directly (FieldAddr /
+// Field instructions), computed from the SSA of the current tree.
+func (m *Machine) schemaFieldsRead() map[string]bool {
+	m.statMu.Lock()
+	defer m.statMu.Unlock()
+	if m.fieldsRead != nil {
+		return m.fieldsRead
+	}
+	out := map[string]bool{}
+	isSchemaStruct := func(t types.Type) (*types.Struct, bool) {
+		if p, ok := t.Underlying().(*types.Pointer); ok {
+			t = p.Elem()
+		}
+		n, ok := types.Unalias(t).(*types.Named)
+		if !ok || n.Obj().Pkg() == nil || n.Obj().Pkg().Path() != RepoModule+"/pkg/schemas" {
+			return nil, false
+		}
+		st, ok := n.Underlying().(*types.Struct)
+		return st, ok
+	}
+	var visit func(fn *ssa.Function)
+	visit = func(fn *ssa.Function) {
+		for _, b := range fn.Blocks {
+			for _, ins := range b.Instrs {
+				switch x := ins.(type) {
+				case *ssa.FieldAddr:
+					if st, ok := isSchemaStruct(x.X.Type()); ok {
+						out[st.Field(x.Field).Name()] = true
+					}
+				case *ssa.Field:
+					if st, ok := isSchemaStruct(x.X.Type()); ok {
+						out[st.Field(x.Field).Name()] = true
+					}
+				}
+			}
+		}
+		for _, af := range fn.AnonFuncs {
+			visit(af)
+		}
+	}
+	for _, p := range m.repoSSA {
+		path := p.Pkg.Path()
+		if strings.HasSuffix(path, "/pkg/schemas") || strings.Contains(path, "zzvrt") {
+			continue
+		}
+		for _, mem := range p.Members {
+			switch x := mem.(type) {
+			case *ssa.Function:
+				if pos := m.Fset.Position(x.Pos()); strings.Contains(pos.Filename, "zz_verif_") {
+					continue
+				}
+				visit(x)
+			case *ssa.Type:
+				for _, t := range []types.Type{x.Type(), types.NewPointer(x.Type())} {
+					ms := m.Prog.MethodSets.MethodSet(t)
+					for k := 0; k < ms.Len(); k++ {
+						if f := m.Prog.MethodValue(ms.At(k)); f != nil && f.Pkg == p {
+							visit(f)
+						}
+					}
+				}
+			}
+		}
+	}
+	m.fieldsRead = out
+	return out
 }
